@@ -307,6 +307,18 @@ def run(ctx):
     recs_req += st_req.run("random", None, dict(VERIF_RANDOM=n_rand // 2, VERIF_COMBOS=2), repro_def,
                            "random raw request sent by the reference client")
     recs_enc += st_enc.run("random", None, dict(VERIF_RANDOM=n_rand), repro_body, "body encoder (random body)")
+    # 4b. the encoders from several goroutines at once (concurrent requests / RPCs): same bytes as alone, and no
+    # data race (race-detector build of the same test)
+    srv_race = ctx.go_test_bin(SRV, ["c17"], race=True)
+    outp = os.path.join(ctx.build, "c17.encrace.out")
+    p = ctx.run_harness(srv_race, "TestVerifC17Enc", env=dict(VERIF_RANDOM=40 if q else 400, VERIF_CONC=1, VERIF_OUT=outp), timeout=3000, check=False)
+    if "WARNING: DATA RACE" in p.stdout:
+        j = p.stdout.index("WARNING: DATA RACE")
+        ctx.candidate(dict(kind="race", stage="enc"), "data race between concurrent renderings of raw bodies:\n" + p.stdout[j:j + 3000],
+                      dict(stage="enc", kind="race", report=p.stdout[j:j + 3000]))
+    elif p.returncode != 0:
+        raise vf.Machinery("concurrent encoder harness failed rc=%d\n%s" % (p.returncode, p.stdout[-2000:]))
+    recs_enc += st_enc.run("conc", None, dict(VERIF_RANDOM=n_rand, VERIF_CONC=1), repro_body, "body encoder (concurrent renderings)")
 
     _evidence(ctx, stages, recs_ops, recs_resp, recs_req, recs_enc)
     ctx.notes["domain"] = dict(behaviours=len(ops), response_definitions=len(g_resp), response_definitions_enumerated=n_resp_all,
